@@ -420,6 +420,27 @@ func (m *model) rule() string {
 	return r.String()
 }
 
+func hasRuleWrite(l []string) bool {
+	for _, k := range l {
+		if strings.HasPrefix(k, "rules/") {
+			return true
+		}
+	}
+	return false
+}
+
+// storedRule is the default placement rule a restarted PD would load.
+func (m *model) storedRule() string {
+	out := "nil"
+	m.s.GetStorage().LoadRules(func(k, v string) {
+		var r placement.Rule
+		if json.Unmarshal([]byte(v), &r) == nil && r.GroupID == "pd" && r.ID == "default" {
+			out = r.String()
+		}
+	})
+	return out
+}
+
 func (m *model) modeManager() string {
 	st := m.s.GetRaftCluster().GetReplicationMode().GetReplicationStatusHTTP()
 	return st.Mode + "/" + st.DrAutoSync.LabelKey
@@ -595,7 +616,7 @@ func (m *model) Apply(i int) *hist.Violation {
 		m.kv.arm(o.flt)
 		err := o.call(m.s)
 		failed, written := m.kv.disarm()
-		if err != nil && has(written, "config") && has(failed, "config") {
+		if err != nil && ((has(written, "config") && has(failed, "config")) || (has(failed, "config") && hasRuleWrite(failed))) {
 			m.terminal = true // see below: the history left the fault model
 		}
 		return nil
@@ -613,6 +634,13 @@ func (m *model) Apply(i int) *hist.Violation {
 	failed, written := m.kv.disarm()
 	if err != nil && has(written, "config") && has(failed, "config") {
 		m.terminal = true // storage kept failing: outside the fault model, do not extend
+	}
+	if err != nil && has(failed, "config") && hasRuleWrite(failed) {
+		// The config write failed and the write that takes the default rule back failed as well
+		// (storage stays down): the rule manager keeps memory and storage equal, so the rule cannot
+		// be rolled back. Outside "a storage failure at the write": not held against pd, not extended.
+		m.terminal = true
+		return nil
 	}
 	after := served(m.s)
 	as := after.snap()
@@ -665,6 +693,13 @@ func (m *model) Apply(i int) *hist.Violation {
 			if want := o.expect(before); want != "" && want != as[o.sec] {
 				return bad("accepted-not-applied-"+o.setter, "accepted, but section %s is served as\n    %s\n  requested\n    %s", secName[o.sec], as[o.sec], want)
 			}
+		}
+	}
+	// 4b. the default placement rule that carries the replication settings is part of what a
+	// newly elected leader reloads: after an accepted change the stored rule is the served one
+	if err == nil && !injected && ruleAfter != "nil" {
+		if st := m.storedRule(); st != ruleAfter {
+			return bad("served-default-rule-not-persisted-"+o.setter, "the default placement rule served is\n    %s\n  but storage holds\n    %s", ruleAfter, st)
 		}
 	}
 	// 5. what a newly elected leader reloads is the served configuration
